@@ -73,18 +73,32 @@ theorem vinv_step (s : St) (t : Nat) (h : ZInv s) (v : VInv s) : VInv (step s t)
         · exact v.wr u w' id' hu
       · obtain ⟨d, hd'⟩ := v.fifo
         refine ⟨d, ?_⟩
-        show s.enqLog ++ [w] = d ++ (Ring.abs (Ring.apply (Ring.step s.q t) (.ack t))).map s.pool
-        rw [ring_abs_apply _ _ (by intro u e; cases e), ha, hd', List.map_append, List.map_singleton, v.wr t w id hz, List.append_assoc]
+        show s.enqLog ++ [w] = d ++ (Ring.abs (Ring.step s.q t)).map s.pool
+        rw [ha, hd', List.map_append, List.map_singleton, v.wr t w id hz, List.append_assoc]
     · simp only [step, hz, hd]
       refine vinv_same s _ v rfl rfl ?_ (by intro u w' id' hu; simp only [thr_setThr] at hu; split at hu <;> simp_all)
       show Ring.abs (Ring.apply (Ring.step s.q t) (.ack t)) = Ring.abs s.q
       rw [ring_abs_apply _ _ (by intro u e; cases e), ha]
     · have hnd : ∀ r, (Ring.step s.q t).thr t ≠ .done r := by intro r e; rw [e] at hc; exact hc
+      have hnl : ∀ k, (Ring.step s.q t).thr t ≠ .pLen k := by intro k e; rw [e] at hc; exact hc
       simp only [step, hz]
       split
-      · next len e => exact absurd e (hnd _)
+      · next k e => exact absurd e (hnl _)
       · next e => exact absurd e (hnd _)
       · exact vinv_same s _ v rfl rfl ha (fun _ _ _ hu => hu)
+  | ePubLen w =>
+    simp only [hz, phaseOk] at hph
+    obtain ⟨_, sid, hq⟩ := hph
+    obtain ⟨⟨len, hd⟩, ha⟩ := plen_step s.q t sid hq
+    simp only [step, hz, hd]
+    refine vinv_same s _ v rfl rfl ?_ (by intro u w' id' hu; simp only [thr_setThr] at hu; split at hu <;> simp_all)
+    show Ring.abs (Ring.apply (Ring.step s.q t) (.ack t)) = Ring.abs s.q
+    rw [ring_abs_apply _ _ (by intro u e; cases e), ha]
+  | dFreeLen w =>
+    simp only [step, hz]
+    split <;> first
+      | exact vinv_same s _ v rfl rfl rfl (by intro u w' id' hu; simp only [thr_setThr] at hu; split at hu <;> simp_all)
+      | exact vinv_same s _ v rfl rfl rfl (fun _ _ _ hu => hu)
   | dCons =>
     simp only [hz, phaseOk] at hph
     rcases consumer_step s.q t h.qInv hph.2 with ⟨id, hd, ha⟩ | ⟨hd, ha⟩ | ⟨hc, ha⟩
